@@ -41,3 +41,35 @@ class KRandom(_random.Random):
     def __init__(self, key):
         super().__init__(key)
         self.key = key
+
+
+def parse_via(module, text, rng, ctx=None, **kw):
+    """Hand `text` to a kyupy parser module (verilog, bench, sdf, stil, def_file) through one of its public entry points:
+    parse(text) (most of the time), load(path) of a plain or gzip-compressed file, or load(binary file object).
+    Temporary files live in $VERIF_TMP (or the system default) and are removed before returning."""
+    import gzip, os, tempfile, zlib
+    # the entry point is a function of the text alone, so a replay of the stored text takes the same one (`rng` is not consumed)
+    r = (zlib.crc32(text.encode()) % 1000) / 1000.0
+    how = 'parse' if r < 0.7 else ('load_path' if r < 0.8 else ('load_gz' if r < 0.9 else 'load_handle'))
+    if ctx is not None:
+        ctx.count('entry/' + how)
+    if how == 'parse':
+        return module.parse(text, **kw)
+    fd, path = tempfile.mkstemp(prefix='vk-in-', suffix='.txt.gz' if how == 'load_gz' else '.txt', dir=os.environ.get('VERIF_TMP') or None)
+    os.close(fd)
+    try:
+        if how == 'load_gz':
+            with gzip.open(path, 'wt') as f:
+                f.write(text)
+        else:
+            with open(path, 'w') as f:
+                f.write(text)
+        if how == 'load_handle':
+            with open(path, 'rb') as f:
+                return module.load(f, **kw)
+        return module.load(path, **kw)
+    finally:
+        try:
+            os.remove(path)
+        except OSError:
+            pass
